@@ -442,7 +442,9 @@ def run(prop, tier):
     ]
     vlib.cargo_build(["bq"])
     # 1. the implementation-shaped model refines the property layer (exhaustive, small constants)
-    mc = {"quick": ["MC_quick.cfg"], "thorough": ["MC_small.cfg", "MC_2p.cfg", "MC_live.cfg"]}[tier]
+    quick_mc = {"C01": ["MC_q_c01.cfg"], "C04": ["MC_q_c04.cfg"], "C05": ["MC_q_c05.cfg", "MC_live.cfg"],
+                "C09": ["MC_q_c09a.cfg", "MC_q_c09b.cfg"]}
+    mc = quick_mc[prop] if tier == "quick" else ["MC_quick.cfg", "MC_small.cfg", "MC_live.cfg"] + quick_mc[prop]
     for cfg in ([] if vlib.SKIP_MC else mc):
         r = vlib.model_check(SPECD, "BackgroundQueue", cfg, timeout=7200, heap="24g" if tier == "thorough" else "8g")
         chk.add_model("BackgroundQueue/" + cfg, r)
@@ -455,7 +457,7 @@ def run(prop, tier):
     if prop == "C05":
         scen += gen_forget_slowflush(rng, 6 if q else 60) + gen_flush_faults(rng, 4 if q else 40)
     if prop == "C09":
-        scen += gen_race_rounds(rng, 3 if q else 20, 150 if q else 400) + gen_count_only(rng, 3 if q else 30, 4000 if q else 12000)
+        scen += gen_race_rounds(rng, 3 if q else 20, 150 if q else 400) + gen_count_only(rng, 3 if q else 30, 2400 if q else 12000)
     for i, s in enumerate(scen):
         s["id"] = i + 1
         s.setdefault("seed", chk.seed * 100000 + i)
